@@ -185,6 +185,14 @@ def run(ctx):
             base = rng.randrange(1, 1 << 40)
             tss = [base + i for i in range(k)]
             fb = pcap_file(FILE_LINKTYPE[dlt], list(zip(tss, frames)))
+            if frames and rng.random() < 0.25:
+                # a damaged file: the last record is cut short (inside its 16-octet record header or inside its data); libpcap
+                # reports a read error there: everything before it is handed out and the loops end as at end of file
+                cut = rng.randrange(1, 16 + len(frames[-1]) + (0 if frames[-1] else 0)) if (16 + len(frames[-1])) > 1 else 1
+                cut = min(cut, 16 + len(frames[-1]) - (0 if len(frames[-1]) else 1)) or 1
+                fb = fb[:len(fb) - cut]
+                frames, tss = frames[:-1], tss[:-1]
+                k -= 1
             maxp = rng.choice([0, 0, 1, 2, 5, k, k + 3])
             stop = rng.choice([0] + tss) if tss else 0
             sid = 'f%d' % len(scripts)
@@ -225,7 +233,9 @@ def run(ctx):
             got = [int(l.split()[1]) for l in lh[pi[0] + 1: pi[0] + 1 + int(lh[pi[0]].split()[1])]]
             ls = [l for l in lh if l.startswith('L')]
             it = [int(x) for x in ls[0].split()[1:]]
-            lp = [int(x) for x in ls[1].split()[1:]]
+            lp_all = ls[1].split()[1:]
+            lp = [int(x) for x in lp_all[:lp_all.index('|')]]
+            rest_after = [int(x) for x in lp_all[lp_all.index('|') + 1:]]
             rawn = int(lh[pi[1]].split()[1])
         except Exception as ex:
             report('reading a capture file: unexpected harness output (%s)' % ex, lines, lh)
@@ -245,6 +255,9 @@ def run(ctx):
                     break
             if lp != exp:
                 report('sniff_loop(max=%d, functor stops at frame %s) visited %s, expected %s' % (maxp, stop - tss[0] if tss else '-', [g - tss[0] for g in lp][:12], [w - tss[0] for w in exp][:12]), lines, lh)
+            elif rest_after != want[len(exp):] if (exp and (exp[-1] == stop or (maxp and len(exp) == maxp))) else rest_after != []:
+                report('after sniff_loop(max=%d, functor stops at frame %s) handed out %d frames, next_packet() on the same sniffer yields %s, the frames still unread are %s'
+                       % (maxp, stop - tss[0] if tss else '-', len(exp), [g - tss[0] for g in rest_after][:12], [w - tss[0] for w in want[len(exp):]][:12]), lines, lh)
             elif runner_ok:
                 lm = [int(x) for x in mo.get(sid, [''])[0].split()] if mo.get(sid, [''])[0] else []
                 if [tss[i] for i in lm] != lp:
